@@ -190,7 +190,19 @@ func c10Run(job *Job, p c10Params, prefix []int) (out schedOut) {
 			released := false
 			s1.c.Peer.OnWrite = func(b []byte) {
 				pend = append(pend, b...)
-				if v, _, ok, _ := parseRESP(pend); ok && v.K == '*' && len(v.A) == 3 && v.A[0].S == "subscribe" {
+				// the confirmation may come after a message (registered, PUBLISH delivered, then confirmed)
+				sawAck := false
+				for rest := pend; len(rest) > 0; {
+					v, r2, ok, err := parseRESP(rest)
+					if !ok || err != nil {
+						break
+					}
+					rest = r2
+					if v.K == '*' && len(v.A) == 3 && v.A[0].S == "subscribe" {
+						sawAck = true
+					}
+				}
+				if sawAck {
 					acked = true
 					if p.Kind == "publish-gated" && !released {
 						released = true
@@ -210,7 +222,7 @@ func c10Run(job *Job, p c10Params, prefix []int) (out schedOut) {
 			out.Trace = append([]vsched.ChoicePoint(nil), vsched.Trace...)
 			out.Diverged = vsched.Diverged
 			if !done {
-				out.VSig, out.VDetail, out.Obs = "C10/no-reply:"+p.Name, vsched.Dump(), "NO-REPLY"
+				out.VSig, out.VDetail, out.Obs = "C10/no-reply:"+p.Name, vsched.Dump()+blockedStacks(), "NO-REPLY"
 				return
 			}
 			pr, _ := pc.ReadReply()
